@@ -128,6 +128,7 @@ func newEnv() *env {
 	}
 
 	server.StartIPServer(ctx, e.log, &net.UDPAddr{IP: e.ip, Port: ntpPort}, 0, e.provider)
+	server.StartSCIONServer(ctx, e.log, "" /* daemon */, &net.UDPAddr{IP: e.ip, Port: scionPort}, 0, e.provider)
 	// the key exchange names the relay's port as the NTP port
 	server.StartNTSKEServerIP(ctx, e.log, e.ip, relayPort, srvTLS, e.provider)
 
@@ -615,6 +616,7 @@ func histJobs(scripts [][]step) (js []job) {
 func runHistories(w *lib.Writer, scripts []job) {
 	for len(scripts) > 0 {
 		cmd := exec.Command(os.Args[0], "-child")
+		cmd.Env = append(os.Environ(), "USE_MOCK_KEYS=true")
 		var sb strings.Builder
 		for _, s := range scripts {
 			sb.WriteString(s.kind + "\t" + s.args)
